@@ -105,6 +105,17 @@ func (g *gen) call(x *ssa.Call, st State, reach string) string {
 		}
 	}
 	reach = g.call0(x, st, reach)
+	if len(g.volatile) > 0 && calleeName(&x.Call) == "(*sync.WaitGroup).Wait" {
+		// The goroutines this function spawned have finished (assumption: the WaitGroup covers all of them):
+		// the cells they captured hold their final, arbitrary but from now on stable, values.
+		for ref := range g.volatile {
+			if t, ok := g.volatileT[ref]; ok {
+				g.havocThrough(Val{T: ref, S: "Int", GoT: t}, t, st, reach, 0)
+			}
+			delete(g.volatile, ref)
+		}
+		g.ctx.note("wg.Wait(): cells captured by spawned goroutines settle (assumed: the WaitGroup covers every goroutine spawned so far)")
+	}
 	if anchored && len(g.fc.GhostSets) > 0 {
 		var results []Val
 		if rv, ok := g.vals[x]; ok {
@@ -247,41 +258,7 @@ func (g *gen) call0(x *ssa.Call, st State, reach string) string {
 	// writes, as found by a dry symbolic run — a write-set summary
 	if callee, ok := c.Value.(*ssa.Function); ok && len(callee.Blocks) > 0 && callee.Pkg != nil && g.prog.isLoaded(callee) {
 		g.ctx.note("callee summarised by its write set: " + name)
-		written := map[string]bool{}
-		for _, w := range g.prog.dryWrittenFor(callee) {
-			for comp := range w {
-				written[comp] = true
-			}
-		}
-		oldWritten, classified := g.prog.dryOld[callee]
-		top0 := g.stGet(st, "alloctop")
-		for _, comp := range sortedKeys(written) {
-			if !g.importComp(comp) {
-				continue
-			}
-			if strings.HasPrefix(comp, "ghost_") && g.ghostPrivate(strings.TrimPrefix(comp, "ghost_")) {
-				continue // only the function under verification assigns this ghost (see ghostPrivate)
-			}
-			if comp == "alloctop" {
-				n := g.ctx.fresh("alloctop", "Int")
-				g.ctx.assume("(>= " + n + " " + top0 + ")")
-				g.stSet(st, "alloctop", n)
-				continue
-			}
-			if classified && !oldWritten[comp] && strings.HasPrefix(g.ctx.compSort[comp], "(Array Int ") {
-				// the callee writes this component only on objects it allocates itself: objects that
-				// exist at the call keep their contents
-				before := g.stGet(st, comp)
-				saved := g.freshWrite
-				g.freshWrite = true
-				g.havocComp(st, comp)
-				g.freshWrite = saved
-				after := g.stGet(st, comp)
-				g.ctx.assume("(forall ((r Int)) (! (=> (< r " + top0 + ") (= (select " + after + " r) (select " + before + " r))) :pattern ((select " + after + " r))))")
-				continue
-			}
-			g.havocComp(st, comp)
-		}
+		g.applyWriteSet(callee, st)
 		if x.Type() != nil && !isEmptyTuple(x.Type()) {
 			g.vals[x] = g.havocVal(x.Name(), x.Type(), st, reach)
 		}
@@ -855,6 +832,44 @@ func mentionsAny(e *Expr, names map[string]bool) bool {
 	return false
 }
 
+// applyWriteSet havocs exactly the heap components the callee (transitively) writes, as found by a dry symbolic
+// run; components it writes only on objects it allocates itself keep their contents on existing objects.
+func (g *gen) applyWriteSet(callee *ssa.Function, st State) {
+	written := map[string]bool{}
+	for _, w := range g.prog.dryWrittenFor(callee) {
+		for comp := range w {
+			written[comp] = true
+		}
+	}
+	oldWritten, classified := g.prog.dryOld[callee]
+	top0 := g.stGet(st, "alloctop")
+	for _, comp := range sortedKeys(written) {
+		if !g.importComp(comp) {
+			continue
+		}
+		if strings.HasPrefix(comp, "ghost_") && g.ghostPrivate(strings.TrimPrefix(comp, "ghost_")) {
+			continue // only the function under verification assigns this ghost (see ghostPrivate)
+		}
+		if comp == "alloctop" {
+			n := g.ctx.fresh("alloctop", "Int")
+			g.ctx.assume("(>= " + n + " " + top0 + ")")
+			g.stSet(st, "alloctop", n)
+			continue
+		}
+		if classified && !oldWritten[comp] && strings.HasPrefix(g.ctx.compSort[comp], "(Array Int ") {
+			before := g.stGet(st, comp)
+			saved := g.freshWrite
+			g.freshWrite = true
+			g.havocComp(st, comp)
+			g.freshWrite = saved
+			after := g.stGet(st, comp)
+			g.ctx.assume("(forall ((r Int)) (! (=> (< r " + top0 + ") (= (select " + after + " r) (select " + before + " r))) :pattern ((select " + after + " r))))")
+			continue
+		}
+		g.havocComp(st, comp)
+	}
+}
+
 // applyModifies havocs the heap components a contract declares as modified.
 // Entries: ghost variable names; "Type.field"; "elems(T)"; "map(K,V)"; "*" (everything).
 func (g *gen) applyModifies(fc *FuncContract, args []Val, argTypes []types.Type, st State, reach string) {
@@ -871,6 +886,13 @@ func (g *gen) applyModifies(fc *FuncContract, args []Val, argTypes []types.Type,
 			}
 			if !found {
 				g.unsupported = append(g.unsupported, fmt.Sprintf("contract: %s: modifies %s names no parameter", fc.Key, m))
+			}
+		case m == "summary":
+			// the heap part of the frame is the callee's computed write set (what an uncontracted callee gets)
+			if f := g.prog.funcs[fc.Key]; f != nil && len(f.Blocks) > 0 {
+				g.applyWriteSet(f, st)
+			} else {
+				g.havocAll(st)
 			}
 		case m == "*":
 			g.havocAll(st)
